@@ -97,6 +97,7 @@ LimApply0(p, e) ==
                              !.low = IF e.v < p.total THEN @ \cup LTasks(p.inprog) ELSE @]
          IN [p |-> p1, bad |-> LNames(LimObs(p1, e))]
     [] e.ev = "creq" -> [p |-> [p EXCEPT !.creq = @ \cup {e.t}], bad |-> {}]
+    [] e.ev = "cdone" -> [p |-> [p EXCEPT !.creq = @ \ {e.t}], bad |-> {}]   \* t's scope absorbed the request; t carries on
     [] e.ev = "quiescent" ->
          LET cl == [NoFreeTokenWithWaiters |-> p.inprog # <<>> => Cardinality(p.holders) >= p.total,
                     CountsTrueWhenIdle |->
